@@ -23,14 +23,40 @@ def _logged(name, fn):
     return ideal_unitary
 
 
+def _used_base():
+    """A one-qubit gate definition that has already been looked at by everything that may keep notes on a definition
+    (its qubit parameters, its unitary, a statement made from it, the used-qubit analysis of that statement)."""
+    import numpy as np
+    from jaqalpaq.core import Register
+    from jaqalpaq.core.algorithm.used_qubit_visitor import get_used_qubit_indices
+
+    base = GateDefinition("base_gate", [Parameter("q0", ParamType.QUBIT)], ideal_unitary=lambda: np.eye(2, dtype=complex))
+    list(base.used_qubits)
+    list(base.quantum_parameters) if hasattr(base, "quantum_parameters") else None
+    list(base.classical_parameters) if hasattr(base, "classical_parameters") else None
+    base.ideal_unitary()
+    st = base(Register("tmp_r", 2)[1])
+    get_used_qubit_indices(st)
+    return base
+
+
 def make(idle=True, logged=True, variant="A"):
+    """variant "A" / "B": the two signature tables of gateset_sig.  A trailing "d" ("Ad", "Bd") makes every
+    definition a copy() of one already-used one-qubit definition with name, parameters and unitary replaced --
+    the documented way to derive a gate from another."""
+    derived = variant.endswith("d")
+    variant = variant.rstrip("d")
     g = {
         "prepare_all": BusyGateDefinition("prepare_all"),
         "measure_all": BusyGateDefinition("measure_all"),
     }
+    base = _used_base() if derived else None
     for name, (params, fn) in VARIANTS[variant].items():
         u = None if fn is None else (_logged(name, fn) if logged else fn)
-        g[name] = GateDefinition(name, [Parameter(n, KIND[k]) for n, k in params], ideal_unitary=u)
+        if derived and u is not None:
+            g[name] = base.copy(name=name, parameters=[Parameter(n, KIND[k]) for n, k in params], ideal_unitary=u)
+        else:
+            g[name] = GateDefinition(name, [Parameter(n, KIND[k]) for n, k in params], ideal_unitary=u)
     if idle:
         g = add_idle_gates(g)
     return g
